@@ -6,8 +6,10 @@
 (* file, files per chunk, cross-chunk imports with kinds, exported aliases  *)
 (* with the declaring file, imported aliases per chunk); `emitted` is the   *)
 (* acorn analysis of the chunk files that were written (static and dynamic  *)
-(* imports resolved to emitted files, exported names, assignments to        *)
-(* imported names).  Both are turned into link results in the sense of      *)
+(* imports resolved to emitted files (style sheets included, as chunks of    *)
+(* kind css), exported names, assignments to imported names); `uses` and     *)
+(* `eexports` are the symbol uses (bindings, wrappers, exports objects) and  *)
+(* entry exports the specification predicts, in the linker's file ids.  Both are turned into link results in the sense of      *)
 (* Link.tla and the formulas that were model-checked on the design          *)
 (* (LinkGen.tla) are evaluated on them.                                     *)
 (***************************************************************************)
@@ -26,17 +28,19 @@ Rec == Records[i]
 LReal ==
   [ files   |-> [id \in {Rec.files[j].id : j \in DOMAIN Rec.files} |->
                    LET r == CHOOSE r \in SeqToSet(Rec.files) : r.id = id
-                   IN [live |-> r.live, bits |-> SeqToSet(r.bits), isEntry |-> r.isEntry]],
+                   IN [live |-> r.live, bits |-> SeqToSet(r.bits), isEntry |-> r.isEntry, css |-> r.css]],
     entries |-> SeqToSet(Rec.entries),
     chunks  |-> [c \in DOMAIN Rec.chunks |->
                    LET r == Rec.chunks[c]
-                   IN [ bits |-> SeqToSet(r.bits), isEntry |-> r.isEntry, entry |-> r.entry,
+                   IN [ bits |-> SeqToSet(r.bits), kind |-> r.kind, isEntry |-> r.isEntry, entry |-> r.entry,
                         files |-> SeqToSet(r.files), order |-> r.files,
                         imports |-> {[chunk |-> x.chunk, kind |-> x.kind] : x \in SeqToSet(r.imports)},
                         exports |-> {[alias |-> x.alias, file |-> x.file, name |-> x.name] : x \in SeqToSet(r.exports)},
                         importsFrom |-> {[chunk |-> x.chunk, alias |-> x.alias] : x \in SeqToSet(r.importsFrom)} ]],
     assigns |-> {},
-    uses    |-> {},
+    \* the symbol uses the specification predicts for the graph (bindings, wrappers init_x / require_x, exports objects),
+    \* joined in: CrossChunkUsesImported asks the REAL chunks for the imports they need
+    uses    |-> {[by |-> x.by, file |-> x.file, name |-> x.name] : x \in SeqToSet(Rec.uses)},
     eexports |-> {[entry |-> x.entry, file |-> x.file, name |-> x.name] : x \in SeqToSet(Rec.eexports)} ]
 \* the hook reports the number of exported symbols next to the alias map: a collision shows as a smaller map
 AliasesDistinct == \A c \in DOMAIN Rec.chunks : Rec.chunks[c].exportCount = Len(Rec.chunks[c].exports)
@@ -47,7 +51,7 @@ LEmitted ==
     entries |-> {},
     chunks  |-> [c \in DOMAIN Rec.emitted |->
                    LET e == Rec.emitted[c]
-                   IN [ bits |-> {}, isEntry |-> e.isEntry, entry |-> NoFile, files |-> {c}, order |-> <<c>>,
+                   IN [ bits |-> {}, kind |-> e.kind, isEntry |-> e.isEntry, entry |-> NoFile, files |-> {c}, order |-> <<c>>,
                         imports |-> {[chunk |-> x.to, kind |-> "static"] : x \in SeqToSet(e.imports)} \cup
                                     {[chunk |-> d, kind |-> "dynamic"] : d \in SeqToSet(e.dyn)},
                         exports |-> {[alias |-> n, file |-> c, name |-> n] : n \in SeqToSet(e.exports)},
@@ -66,6 +70,8 @@ FailingRec ==
   (IF AliasesDistinct THEN {} ELSE {"ImportsResolveToExports"}) \cup
   (IF EmittedParse THEN {} ELSE {"EmittedParse"}) \cup
   (IF NoStaticChunkCycle(LEmitted) THEN {} ELSE {"EmittedNoStaticChunkCycle"}) \cup
+  \* no emitted JS file imports a style sheet, by statement or by import(); import() names an entry point's JS file
+  (IF DynamicImportTargetsJS(LEmitted) THEN {} ELSE {"EmittedDynamicImportTargetsJS"}) \cup
   (IF ImportsResolveToExports(LEmitted) /\ EmittedExportsDistinct THEN {} ELSE {"EmittedImportsResolveToExports"}) \cup
   (IF NoCrossChunkAssignment(LEmitted) /\ EmittedNoAssignToImport THEN {} ELSE {"EmittedNoCrossChunkAssignment"})
 
